@@ -21,6 +21,7 @@ def run(r):
                 ("HID2", 3, [97, 98, 99, 100, 120], 24, [(s + 3) % 24], {}), ("TLR", 3, [97, 98, 32], 1, [0], {}), ("HIDR", 4, AB, 3, [(s + 1) % 3], {})]
         rnd = [(100, dict(maxlen=5, share=1, named=0)), (50, dict(maxlen=4, share=1, named=0, base=0, seed_off=3))]
     parsefam.run_plan(r, {"props": ["C02"], "families": fams, "random": rnd})
+    r.extra["long_inputs"] = parsefam.long_inputs(r, ["C02"], [70, 130] if r.tier == "thorough" else [66 + r.seed % 9])
     if th:
         # termination as a liveness property (weak fairness of the machine's steps) on a small configuration
         o = r.tlc("ParsleyMC", cfg_text=parsefam.mc_cfg("CAT", 2, ABX, export=False, liveness=True, deadlock=False), workers=core.NCPU, timeout=1500)
